@@ -376,7 +376,7 @@ func summary(cfg *config.Config, meta map[string]string, counts map[string]uint6
 	var counters []string
 	for c := range counts {
 		summary, _, ok := strings.Cut(c, "\n")
-		if ok && !cfg.HasStack(meta["Program"], c) {
+		if ok && !cfg.HasStack(meta["Program"], summary) {
 			counters = append(counters, fmt.Sprintf("<code>%s</code>", html.EscapeString(summary)))
 		}
 		if !ok && !(cfg.HasCounter(meta["Program"], c)) {
